@@ -134,6 +134,31 @@ func jsonNumberFloat(num json.Number) (float64, error) {
 	return float, err
 }
 
+// compareIntFloat compares an integer to a floating point number by value and
+// returns 0, 1, or -1. Converting the integer to float64 would round it when
+// its magnitude exceeds 2^53 and make distinct numbers compare as equal.
+func compareIntFloat(left int64, right float64) int {
+	const twoTo63 = 9223372036854775808.0
+	switch {
+	case right >= twoTo63:
+		return -1
+	case right < -twoTo63:
+		return 1
+	case math.IsNaN(right):
+		// NaN is unordered; keep the outcome of the float comparison.
+		return 0
+	}
+
+	// The integer part of right now fits in an int64.
+	whole := int64(right)
+	if left != whole {
+		return compareNumbers(left, whole)
+	}
+
+	// Equal integer parts: the fraction decides.
+	return compareNumbers(0, right-float64(whole))
+}
+
 // compareBool compares two numeric values and returns 0, 1, or -1. The left
 // and right params must be int64, float64, or json.Number values.
 func compareNumeric(left, right any) int {
@@ -143,14 +168,14 @@ func compareNumeric(left, right any) int {
 		case int64:
 			return compareNumbers(left, right)
 		case float64:
-			return compareNumbers(float64(left), right)
+			return compareIntFloat(left, right)
 		case json.Number:
 			if rightInt, err := right.Int64(); err == nil {
 				return compareNumbers(left, rightInt)
 			}
 			rightFloat, err := jsonNumberFloat(right)
 			if err == nil {
-				return compareNumbers(float64(left), rightFloat)
+				return compareIntFloat(left, rightFloat)
 			}
 			// This should not happen.
 			panic(err)
@@ -160,8 +185,11 @@ func compareNumeric(left, right any) int {
 		case float64:
 			return compareNumbers(left, right)
 		case int64:
-			return compareNumbers(left, float64(right))
+			return -compareIntFloat(right, left)
 		case json.Number:
+			if rightInt, err := right.Int64(); err == nil {
+				return -compareIntFloat(rightInt, left)
+			}
 			rightFloat, err := jsonNumberFloat(right)
 			if err == nil {
 				return compareNumbers(left, rightFloat)
